@@ -183,10 +183,21 @@ def mutate_fit(rng, fit, original):
     replaced, modes flipped, parameters dropped or brought back.  Supports
     stay inside the previous ones (valid region)."""
     import copy
+    defaults = [i for i, f in enumerate(fit)
+                if not f.get('set_prior', True)]
+    if defaults and rng.random() < 0.2:
+        # nothing changes but one boundary, given as factors of the value the
+        # parameter has at that moment
+        new = copy.deepcopy(fit)
+        new[rng.choice(defaults)]['factor'] = [rng.uniform(0.3, 0.9),
+                                               rng.uniform(1.1, 3.0)]
+        return new
     if rng.random() < 0.15:
         new = copy.deepcopy(original)
     else:
         new = copy.deepcopy(fit)
+    for f in new:
+        f.pop('factor', None)
     user = {f['name'] for f in fit if f.get('set_prior', True)}
     if len(new) > 1 and rng.random() < 0.25:
         del new[rng.randrange(len(new))]
@@ -230,16 +241,44 @@ def mutate_fit(rng, fit, original):
 
 def apply_refit(opt, old, new):
     """Bring a long-lived optimizer from configuration `old` to `new` with the
-    public mutators (what a user does between two fits)."""
+    public mutators (what a user does between two fits): only what changed is
+    touched.  Entries with a 'factor' get their bounds from
+    set_factor_boundary (a factor times the parameter's current value)."""
     newnames = {f['name'] for f in new}
-    oldnames = {f['name'] for f in old}
+    by_old = {f['name']: f for f in old}
     for f in old:
         if f['name'] not in newnames:
             opt.disable_fit(f['name'])
     for f in new:
-        if f['name'] not in oldnames:
+        o = by_old.get(f['name'])
+        if o is None:
             opt.enable_fit(f['name'])
-        apply_fit_entry(opt, f)
+        if o is None or o['mode'] != f['mode']:
+            opt.set_mode(f['name'], f['mode'])
+        if f.get('factor'):
+            opt.set_factor_boundary(f['name'], list(f['factor']))
+        elif o is None or o['prior'] != f['prior'] or o.get('factor') or \
+                o.get('set_prior', True) != f.get('set_prior', True):
+            if f.get('set_prior', True):
+                opt.set_prior(f['name'], M.make_prior(f['prior']))
+            else:
+                a = f['prior']['args']
+                opt.set_boundary(f['name'],
+                                 list(a.get('lin_bounds', a.get('bounds'))))
+
+
+def resolve_factors(fit, current_value):
+    """Entries whose bounds were given as factors of the parameter's current
+    value: the default prior implied by mode and [f0*v, f1*v]."""
+    out = []
+    for f in fit:
+        f = dict(f)
+        if f.get('factor'):
+            v = current_value(f['name'])
+            f['prior'] = M.default_prior_spec(
+                f['mode'], [f['factor'][0] * v, f['factor'][1] * v])
+        out.append(f)
+    return out
 
 
 def fit_order(model, obs, fit):
